@@ -2,12 +2,31 @@ package moss
 
 // Helpers for store-backed harnesses.
 
-// vxDrain lets merger and persister run until nothing moves, with one
-// extra merger cycle so that data left in mid is handed to the persister.
+// vxDrain lets merger and persister run until nothing moves. If dirty data
+// is still left afterwards (e.g. a merge result sitting in mid because the
+// persister was busy), one explicit merger cycle hands it down. No cycle is
+// forced when everything is already persisted: an empty round would replace
+// the clean section and hide what the last real round left there.
 func vxDrain(c Collection) {
 	vxQuiesce()
-	c.(*collection).NotifyMerger("go", true)
-	vxQuiesce()
+	cc := c.(*collection)
+	isDirty := func() bool {
+		cc.m.Lock()
+		defer cc.m.Unlock()
+		return (cc.stackDirtyTop != nil && !cc.stackDirtyTop.isEmpty()) ||
+			(cc.stackDirtyMid != nil && !cc.stackDirtyMid.isEmpty()) ||
+			(cc.stackDirtyBase != nil && !cc.stackDirtyBase.isEmpty())
+	}
+	tries := 2
+	if !vxSymbolic() {
+		tries = 100 // natively "quiesce" is a sleep: poll until persisted
+	}
+	kicked := false
+	for n := 0; n < tries && (isDirty() || (!kicked && len(cc.childCollections) > 0)); n++ {
+		cc.NotifyMerger("go", true)
+		kicked = true
+		vxQuiesce()
+	}
 }
 
 // vxDirImage is a copy of the directory: names and contents.
